@@ -183,7 +183,7 @@ func c07Paths(r *rng, c *pgCompiled, root *pgVal) (valid []c07Path, absent []c07
 		// declared but absent field; undeclared number
 		if m != nil {
 			for _, f := range m.Fields {
-				if !present[f.Num] && r.chance(35) {
+				if !present[f.Num] && (r.chance(35) || len(v.Fields) == 0) {
 					absent = append(absent, c07Path{Steps: cp(prefix, c07Step{Kind: 1, Num: f.Num, Name: f.Name}), F: f})
 				}
 			}
@@ -357,11 +357,17 @@ func c07ErrStatus(err error) int {
 }
 
 func genC07(r *rng, n int) {
+	// Reused across ALL calls of the run: results must never depend on earlier calls (stale slots of a recycled
+	// PathNode tree / Children slice / GetMany request slice, pool objects).
+	var reuseChildren []generic.PathNode
+	reuseReqs := make([]generic.PathNode, 0, 8)
+	reuseTree := &generic.PathNode{}
+	defer func() { generic.UseNativeSkipForGet = false }()
 	opts := &generic.Options{}
 	produced := 0
 	for produced < n {
 		sr := r.fork()
-		s := genProtoSchema(sr, pgOpts{BigNumbers: sr.chance(12)})
+		s := genProtoSchema(sr, pgOpts{BigNumbers: sr.chance(12), StringKeyPct: 25})
 		c, err := compileProtoSchema(s)
 		if err != nil {
 			die("C07: schema does not compile: %v\n%s", err, s.protoText())
@@ -372,6 +378,10 @@ func genC07(r *rng, n int) {
 			produced++
 			vr := r.fork()
 			val := genProtoValue(vr, c, s.Root, 0)
+			// boundary class: the EMPTY root message (zero bytes): every declared field is then queried as absent
+			if vr.chance(8) {
+				val = &pgVal{Tag: 1, Kind: pgKMessage}
+			}
 			bs, err := c.encodeRef(val, s.Root)
 			if err != nil {
 				die("C07: reference encode: %v", err)
@@ -391,6 +401,12 @@ func genC07(r *rng, n int) {
 			head := append(append([]string{}, sf...), fx(bs))
 			out.emit(701, append(append([]string{}, head...), dump.caseFields()...)...)
 
+			// option sweep: UseNativeSkip / UseNativeSkipForGet are documented as not implemented: no result may change;
+			// half of the messages use recycled request slices / trees with ClearDirtyValues
+			opts = &generic.Options{UseNativeSkip: vr.bool()}
+			generic.UseNativeSkipForGet = vr.bool()
+			reuse := vr.bool()
+			optsMany := &generic.Options{UseNativeSkip: opts.UseNativeSkip, ClearDirtyValues: reuse}
 			valid, absent := c07Paths(vr, c, val)
 			valid = c07Sample(vr, valid, 40)
 			absent = c07Sample(vr, absent, 10)
@@ -408,6 +424,9 @@ func genC07(r *rng, n int) {
 					ok, pmsg := noPanic(func() { obs = f(p) })
 					if !ok {
 						obs = c07Panic
+						if api == 7 || api == 8 {
+							obs = append(append([]string{}, c07Panic...), fi(-1))
+						}
 					}
 					if c07Debug {
 						fmt.Fprintf(os.Stderr, "api %d q %d path %v obs %v %s\n", api, qi, p.fields(byName, nil, vr), obs, pmsg)
@@ -470,7 +489,14 @@ func genC07(r *rng, n int) {
 					if pobs[0] != "n0" {
 						return append(append([]string{fi(2), fi(-1), fx(nil)}, pobs...), fi(0), fi(0))
 					}
-					pn := []generic.PathNode{{Path: p.Steps[l-1].goPath(false)}}
+					// a recycled request slice keeps the Nodes of earlier calls: only the Paths are rewritten
+					var pn []generic.PathNode
+					if reuse {
+						pn = reuseReqs[:1]
+						pn[0].Path = p.Steps[l-1].goPath(false)
+					} else {
+						pn = []generic.PathNode{{Path: p.Steps[l-1].goPath(false)}}
+					}
 					reqs := []c07Step{p.Steps[l-1]}
 					for _, q := range all {
 						if !siblings || len(pn) >= 3 {
@@ -484,7 +510,12 @@ func genC07(r *rng, n int) {
 								}
 							}
 							if same {
-								pn = append(pn, generic.PathNode{Path: q.Steps[l-1].goPath(false)})
+								if reuse {
+									pn = pn[:len(pn)+1]
+									pn[len(pn)-1].Path = q.Steps[l-1].goPath(false)
+								} else {
+									pn = append(pn, generic.PathNode{Path: q.Steps[l-1].goPath(false)})
+								}
 								reqs = append(reqs, q.Steps[l-1])
 							}
 						}
@@ -501,7 +532,7 @@ func genC07(r *rng, n int) {
 					tail = append(tail, fi(at))
 					var obs []string
 					if ok, _ := noPanic(func() {
-						if err := parent.GetMany(pn, opts); err != nil {
+						if err := parent.GetMany(pn, optsMany); err != nil {
 							obs = []string{fi(c07ErrStatus(err)), fi(-2), fx(nil)}
 						} else {
 							obs = c07ObsNode(pn[at].Node)
@@ -524,7 +555,8 @@ func genC07(r *rng, n int) {
 				}
 				var obs []string
 				if ok, _ := noPanic(func() {
-					tree := generic.PathNode{Node: parent.Node}
+					tree := reuseTree
+					tree.Node = parent.Node
 					if err := tree.Load(false, opts, parent.Desc); err != nil {
 						obs = []string{fi(c07ErrStatus(err)), fi(-2), fx(nil)}
 						return
@@ -541,46 +573,61 @@ func genC07(r *rng, n int) {
 				return append(append([]string{}, obs...), tail...)
 			})
 			// 7: PathNode.Load(recurse=true) on the root, then walk
-			var tree generic.PathNode
+			// the tree comes from the PathNode pool and goes back after the walks: its child slots are recycled
+			tree := generic.NewPathNode()
 			var loadErr error
 			loadOK, _ := noPanic(func() {
-				tree = generic.PathNode{Node: root().Node}
+				tree.Node = root().Node
 				loadErr = tree.Load(true, opts, c.Dyn)
 			})
+			// 4th observation of APIs 7 and 8: Len() of the node (-1: not a LIST/MAP)
+			withLen := func(n generic.Node) []string {
+				o := c07ObsNode(n)
+				ln := -1
+				if o[0] == "n0" {
+					if k, err := n.Len(); err == nil {
+						ln = k
+					}
+				}
+				return append(o, fi(ln))
+			}
 			if c07Debug && loadErr != nil {
 				fmt.Fprintf(os.Stderr, "load(recurse) error: %v\n", loadErr)
 			}
 			emit702(7, false, func(p c07Path) []string {
 				if !loadOK {
-					return c07Panic
+					return append(append([]string{}, c07Panic...), fi(-1))
 				}
 				if loadErr != nil {
-					return []string{fi(c07ErrStatus(loadErr)), fi(-2), fx(nil)}
+					return []string{fi(c07ErrStatus(loadErr)), fi(-2), fx(nil), fi(-1)}
 				}
-				cur := tree
+				cur := *tree
 				for _, st := range p.Steps {
 					ch, ok := c07FindChild(cur.Next, st)
 					if !ok {
-						return []string{fi(1), fi(0), fx(nil)}
+						return []string{fi(1), fi(0), fx(nil), fi(-1)}
 					}
 					cur = ch
 				}
-				return c07ObsNode(cur.Node)
+				return withLen(cur.Node)
 			})
+			generic.FreePathNode(tree)
 			// 8: Children(recurse=false) via Node.Children on the root message only (first steps)
 			emit702(8, false, func(p c07Path) []string {
 				if len(p.Steps) != 1 {
-					return []string{fi(9), fi(0), fx(nil)} // not applicable
+					return []string{fi(9), fi(0), fx(nil), fi(-1)} // not applicable
 				}
-				chs := make([]generic.PathNode, 0, 4)
-				if err := root().Children(&chs, false, opts, c.Dyn); err != nil {
-					return []string{fi(c07ErrStatus(err)), fi(-2), fx(nil)}
+				if reuseChildren == nil {
+					reuseChildren = make([]generic.PathNode, 0, 4)
 				}
-				ch, ok := c07FindChild(chs, p.Steps[0])
+				if err := root().Children(&reuseChildren, false, opts, c.Dyn); err != nil {
+					return []string{fi(c07ErrStatus(err)), fi(-2), fx(nil), fi(-1)}
+				}
+				ch, ok := c07FindChild(reuseChildren, p.Steps[0])
 				if !ok {
-					return []string{fi(1), fi(0), fx(nil)}
+					return []string{fi(1), fi(0), fx(nil), fi(-1)}
 				}
-				return c07ObsNode(ch.Node)
+				return withLen(ch.Node)
 			})
 
 			// 703: typed casts and Interface on valid paths (+ the root itself)
